@@ -457,3 +457,59 @@ func ruleREPORTCONFLICTS(c *Ctx) {
 		c.Bad(rule, "lalr.compiler.reportConflicts:export", f.Pos(), "Tables.SR and Tables.RR must receive the computed counters")
 	}
 }
+
+// DTX(lr0-shift): a state that has a reduction and receives its first shift stops being LR(0)
+// (it must consult the lookahead from then on), on every path through addShift.
+func ruleLR0SHIFT(c *Ctx) {
+	const rule = "DTX(lr0-shift)"
+	f := c.SSAFunc("lalr", "(*compiler).addShift")
+	if f == nil || len(f.Params) != 3 {
+		c.Lost(rule, "lalr.compiler.addShift", "function not found")
+		return
+	}
+	for _, sc := range []struct {
+		name           string
+		shifts, reduce AV
+		want           bool
+	}{
+		{"first shift of a state with a reduction", avInt{0, 0}, avInt{1, 1 << 30}, true},
+	} {
+		cfg := &aiConfig{
+			RecordStores: true,
+			Load: func(path string, t types.Type) (AV, bool) {
+				switch path {
+				case "from.shifts":
+					return avSym{Name: "from.shifts", Len: sc.shifts}, true
+				case "from.reduce":
+					return avSym{Name: "from.reduce", Len: sc.reduce}, true
+				}
+				return nil, false
+			},
+		}
+		outs := aiEval(f, []AV{avSym{Name: "c"}, avSym{Name: "from"}, avSym{Name: "to"}}, cfg)
+		key := "lalr.compiler.addShift[" + sc.name + "]"
+		var probs []string
+		for _, o := range outs {
+			if o.Kind == "cut" {
+				continue // the insertion loop is irrelevant here
+			}
+			has := false
+			for _, s := range o.Stores {
+				if s == "from.lr0 = false" {
+					has = true
+				}
+			}
+			if has != sc.want {
+				probs = append(probs, "a path through addShift ends without from.lr0 = false: "+o.String())
+			}
+		}
+		if len(outs) == 0 {
+			probs = append(probs, "no path")
+		}
+		if len(probs) > 0 {
+			c.Bad(rule, key, f.Pos(), "%s (the state keeps reducing unconditionally and never takes the shift, e.g. the accepting end-of-input shift)", strings.Join(uniqStrings(probs), " | "))
+		} else {
+			c.Ok(rule, key, f.Pos(), "from.lr0 = false is stored on all %d paths", len(outs))
+		}
+	}
+}
